@@ -44,7 +44,8 @@ ASSUMPTIONS = [
     "validity is only asserted for unambiguous values: numbers inside / outside the declared bounds (next float outside), enum "
     "members and their case/space variants (normalisation of string values is documented and pinned by the test-suite), None "
     "for Optional / non-Optional fields, clearly mistyped values; NaN, inf, numeric strings, integral floats for ints, the "
-    "exact docstring-vs-bound disagreement (uncertainty_alpha 0 and 1), changed `options` lists, alpha_final set with "
+    "exact docstring-vs-bound disagreement (uncertainty_alpha 0 and 1), reordered or shortened `options` lists (a list that names "
+    "a season / day type the models do not know is INVALID: its months or days would belong to no sub-model), alpha_final set with "
     "alpha_final_type=None, initial_step_percentage=None with algorithm_choice=None are 'unspecified': only the lock applies",
     "any exception counts as a rejection (its type is recorded in the behaviour)",
     "nested settings objects of a related class (subclass / superclass of the declared nested class) are an input form for "
@@ -206,6 +207,11 @@ CLUSTERS = {
             "season.options": [["summer", "shoulder", "winter"], ["summer", "winter"], ["summer", "shoulder", "winter", "monsoon"]],
             "season.january": ["winter", "shoulder", "monsoon"],
             "season.july": ["summer", "shoulder", "monsoon"],
+        },
+        "daytype_options": {
+            "weekday_weekend.options": [["weekday", "weekend"], ["weekday", "weekend", "holiday"]],
+            "weekday_weekend.friday": ["weekday", "weekend", "holiday"],
+            "weekday_weekend.sunday": ["weekend", "weekday"],
         },
     },
     "hourly": {
